@@ -32,7 +32,7 @@ namespace M = AIToolbox::MDP;
 
 static const long kFixed = 10;
 
-long verif::verif_ncases(const std::string & tier) { return kFixed + (tier == "thorough" ? 9000 : 640); }
+long verif::verif_ncases(const std::string & tier) { return kFixed + (tier == "thorough" ? 20000 : 1600); }
 
 // ---------------------------------------------------------------- parameter streams
 struct Params {
@@ -208,7 +208,8 @@ static Star g_star;
 
 template <class Learner>
 static void run_tr(Line & l, Learner & lr, Rng & rng, const Params & p, const AI::Matrix2D & behav, bool sarsal) {
-    int n = p.maxSteps; l << n;
+    int n = p.maxSteps, done = 0;
+    Line body;
     ExpGen gen(rng, p.S, p.A);
     for (int k = 0; k < n; ++k) {
         Exp e = gen.next(rng, p);
@@ -218,14 +219,22 @@ static void run_tr(Line & l, Learner & lr, Rng & rng, const Params & p, const AI
             e.s1 = g_star.next[e.s][e.a]; e.r = g_star.R(e.s, e.a);
             long am; g_star.q.row(e.s1).maxCoeff(&am); e.a1 = (size_t)am;
         }
-        l << e.s << e.a << e.s1 << e.a1 << e.r;
         if constexpr (std::is_same_v<Learner, M::SARSAL>) lr.stepUpdateQ(e.s, e.a, e.s1, e.a1, e.r);
         else lr.stepUpdateQ(e.s, e.a, e.s1, e.r);
         const auto & tr = lr.getTraces();
-        l << (size_t)tr.size();
-        for (const auto & [ts, ta, el] : tr) l << ts << ta << el;
-        putTable(l, lr.getQFunction());
+        // importance-sampling ratios above one with a non-positive cut-off make traces (and then the table) grow without
+        // bound; the sequence is cut before doubles overflow (the exact-rational model has no infinities)
+        bool big = !(lr.getQFunction().cwiseAbs().maxCoeff() < 1e60);
+        for (const auto & [ts, ta, el] : tr) if (!(std::fabs(el) < 1e60)) big = true;
+        if (big) { std::printf("#stat tr-diverged 1\n"); break; }
+        body << e.s << e.a << e.s1 << e.a1 << e.r;
+        body << (size_t)tr.size();
+        for (const auto & [ts, ta, el] : tr) body << ts << ta << el;
+        putTable(body, lr.getQFunction());
+        ++done;
     }
+    l << done;
+    if (done) l << body.os.str();
     (void)sarsal;
 }
 
@@ -389,6 +398,37 @@ static void case_dynab(Rng & rng, const std::string & tier) {
     std::printf("#stat dynab 1\n");
 }
 
+// ---------------------------------------------------------------- Dyna2 (two SARSAL learners sharing traces)
+static void case_dyna2(Rng & rng, const std::string & tier) {
+    Params p = drawParams(rng, tier, true);
+    if (p.tol > 1.0) p.tol = 0.125;
+    DetModel m{p.S, p.A, p.g, {}, randTable(rng, p.S, p.A, 3)};
+    m.next.assign(p.S, std::vector<size_t>(p.A));
+    for (auto & row : m.next) for (auto & x : row) x = rng.below(p.S);
+    unsigned N = (unsigned)rng.range(1, 4);
+    M::Dyna2<DetModel> d(m, p.alpha, p.lam, p.tol, N);
+    // deterministic internal policy so that batchUpdateQ is a function of its argument
+    AI::Matrix2D pol = AI::Matrix2D::Zero(p.S, p.A);
+    std::vector<size_t> act(p.S);
+    for (size_t s = 0; s < p.S; ++s) { act[s] = rng.below(p.A); pol(s, act[s]) = 1.0; }
+    d.setInternalPolicy(new M::Policy(pol));
+    Line l; l << "C11" << "dyna2" << p.S << p.A << p.g << p.alpha << p.lam << p.tol << (size_t)N;
+    for (auto & row : m.next) for (auto x : row) l << x;
+    putTable(l, m.rew);
+    for (auto a : act) l << a;
+    int n = std::min(p.maxSteps, 80); l << n;
+    ExpGen gen(rng, p.S, p.A);
+    for (int k = 0; k < n; ++k) {
+        int kind = (int)rng.below(6);
+        if (kind <= 3) { Exp e = gen.next(rng, p); l << 1 << e.s << e.a << e.s1 << e.a1 << e.r; d.stepUpdateQ(e.s, e.a, e.s1, e.a1, e.r); }
+        else if (kind == 4) { size_t s0 = rng.below(p.S); l << 2 << s0; d.batchUpdateQ(s0); }
+        else { l << 3; d.resetTransientLearning(); }
+        putTable(l, d.getPermanentQFunction()); putTable(l, d.getTransientQFunction());
+    }
+    l.emit();
+    std::printf("#stat dyna2 1\n");
+}
+
 // ---------------------------------------------------------------- cases
 void verif::verif_case(Rng & rng, long idx, const std::string & tier) {
     if (idx < kFixed) {
@@ -419,7 +459,8 @@ void verif::verif_case(Rng & rng, long idx, const std::string & tier) {
     else if (k < 27) case_tr(rng, (TR)rng.below(9), tier);
     else if (k == 27) case_tr(rng, (TR)rng.below(5), tier, nullptr, true, true);   // control learners / SARSA(lambda) at Q*
     else if (k < 31) case_ps(rng, tier);
-    else case_dynab(rng, tier);
+    else if (rng.coin()) case_dynab(rng, tier);
+    else case_dyna2(rng, tier);
 }
 
 VERIF_MAIN
